@@ -59,6 +59,8 @@ pub struct ItemContract {
     pub nocanary: bool,
     /// R-chainlet: name the intermediate values of the tail method chain __c0, __c1, ..
     pub chainlet: bool,
+    /// `@chainlet let K`: the same for the method chain in the initialiser of top-level statement K (a `let`): `__lK_0`, `__lK_1`, ..
+    pub chainlet_lets: Vec<usize>,
     pub line: usize,
 }
 
@@ -241,7 +243,13 @@ pub fn parse(text: &str, path: &str) -> Contracts {
                     let it = cur_item
                         .as_ref()
                         .unwrap_or_else(|| die(&format!("{}:{}: @chainlet before @item", path, ln)));
-                    c.items.get_mut(it).unwrap().chainlet = true;
+                    let a = arg.trim();
+                    if let Some(k) = a.strip_prefix("let ") {
+                        let k: usize = k.trim().parse().unwrap_or_else(|_| die(&format!("{}:{}: @chainlet let <statement ordinal>", path, ln)));
+                        c.items.get_mut(it).unwrap().chainlet_lets.push(k);
+                    } else {
+                        c.items.get_mut(it).unwrap().chainlet = true;
+                    }
                 }
                 "nocanary" => {
                     let it = cur_item
